@@ -129,6 +129,14 @@ func (s *Service) ScheduleJob(ctx context.Context,
 			// It is possible that a run request has already claimed the job, so claim it
 			// under the state lock to ensure it is neither run twice nor lost.
 			job.stateLock.Lock()
+			if job.finalised.Load() {
+				// The job was cancelled before the timer could claim it, so it does not run.
+				job.stateLock.Unlock()
+				s.log.Trace().Str("job", name).Time("scheduled", runtime).Msg("Cancel triggered; job not running")
+				finaliseJob(job)
+				monitorJobCancelled(class)
+				break
+			}
 			claimed := job.active.Load()
 			if !claimed {
 				job.active.Store(true)
@@ -325,6 +333,11 @@ func (s *Service) CancelJob(_ context.Context, name string) error {
 		// Already marked to be cancelled.
 		job.stateLock.Unlock()
 		return nil
+	}
+	if job.active.Load() && !job.periodic {
+		// The job has already started (or has been claimed to start), so cannot be cancelled.
+		job.stateLock.Unlock()
+		return scheduler.ErrJobRunning
 	}
 	job.finalised.Store(true)
 	job.cancelCh <- struct{}{}
